@@ -401,6 +401,20 @@ BurstReadsOK(ln) ==
                        /\ \/ rs[i].val.account = prev.bal[reqs[i].id].account /\ rs[i].val.credit = prev.bal[reqs[i].id].credit
                           \/ rs[i].val.account = ln.st.bal[reqs[i].id].account /\ rs[i].val.credit = ln.st.bal[reqs[i].id].credit
 
+\* the registry after a burst run with real parallelism: connections closed in the burst are gone, hosts whose connect
+\* was accepted are registered on the connection they used (one host identity per connection, at most one connect per
+\* host in a burst: the order inside the burst does not matter)
+RECURSIVE CloseAll(_, _)
+CloseAll(P, ks) == IF ks = {} THEN P ELSE LET k == CHOOSE x \in ks : TRUE IN CloseAll(CloseF(P, k).st, ks \ {k})
+RegAfterBurst(P, reqs, rs) ==
+    LET closed == {reqs[i].conn : i \in {j \in DOMAIN reqs : reqs[j].op = "Close"}}
+        P1 == CloseAll(P, closed)
+        regs == {i \in DOMAIN reqs : reqs[i].op = "Connect" /\ rs[i].ok /\ reqs[i].full /\ reqs[i].conn \notin closed}
+    IN [P1 EXCEPT !.reg = [h \in DOMAIN P1.reg \cup {reqs[i].ident : i \in regs} |->
+                             IF \E i \in regs : reqs[i].ident = h THEN reqs[CHOOSE i \in regs : reqs[i].ident = h].conn ELSE P1.reg[h]],
+                  !.look = [k \in DOMAIN P1.look \cup {reqs[i].conn : i \in regs} |->
+                             IF \E i \in regs : reqs[i].conn = k THEN reqs[CHOOSE i \in regs : reqs[i].conn = k].ident ELSE P1.look[k]]]
+
 BurstStep(ln) ==
     LET reqs == ln.a.reqs  rs == ln.r.val  n == Len(reqs)  allcalls == CallSet(ln.st) IN
     /\ ln.op = "Burst"
@@ -418,7 +432,9 @@ BurstStep(ln) ==
             LET delta == SumOver([i \in DOMAIN reqs |-> IF reqs[i].op \in {"AddAccountBalance", "AddNodeBalance"} /\ rs[i].ok
                                                         THEN reqs[i].amt
                                                         ELSE IF reqs[i].op = "CreditLoop" /\ rs[i].ok THEN reqs[i].n * reqs[i].amt ELSE 0], DOMAIN reqs)
-            IN Finish([S EXCEPT !.trial = Put(S.trial, "(burst credits)", delta)], ln)
+                PR == RegAfterBurst(S, reqs, rs)
+            IN /\ A("reg", "connected hosts after connections were closed and opened at the same time", ln.st.numremotes = NumRemotes(PR))
+               /\ Finish([PR EXCEPT !.trial = Put(PR.trial, "(burst credits)", delta)], ln)
 
 PoolStep(ln) ==
   LET a == ln.a IN
